@@ -296,7 +296,7 @@ def run_numeric(prop, units, tier, seed, trusted_extra=(), design_ref='', lemmas
         u, f, hf = job
         if getattr(f, 'is_lemma', False):
             return job, cbmc_job(u.dir, f.cname, hf, f.cname, enforce=None, smt=True, timeout=tmo, own_prefixes=(f.cname,))
-        kf_ = (prop, f.cname + getattr(u, 'key_suffix', '.contract')) in rep.known
+        kf_ = rep.is_known(f.cname + getattr(u, 'key_suffix', '.contract'), f.sha)
         # an obligation recorded as a known finding is expected to fail: a short proof attempt, then straight to the concrete reproduction
         return job, cbmc_job(u.dir, f.cname, hf, 'h_' + f.cname, enforce=f.cname, replace=u.replace.get(f.cname, ()), smt=True,
                              timeout=15 if kf_ else (u.timeout or tmo), extra_cbmc=getattr(u, 'extra_cbmc', ()), loop_contracts=getattr(u, 'loop_contracts', False))
@@ -334,14 +334,14 @@ def run_numeric(prop, units, tier, seed, trusted_extra=(), design_ref='', lemmas
         if getattr(f, 'is_lemma', False):
             rep.undecide('lemma %s not discharged (%s %s)' % (f.cname, r.status, r.detail))
             continue
-        if r.status == 'undecided' and (prop, key) not in rep.known:
+        if r.status == 'undecided' and not rep.is_known(key, f.sha):
             # the all-obligations query was not decided: ask for every obligation on its own (frame / assigns obligations are small and
             # get a definite answer even when the functional postcondition does not)
             r2 = cbmc_job(u.dir, f.cname + '.split', hf, 'h_' + f.cname, enforce=f.cname, replace=u.replace.get(f.cname, ()), smt=True,
                           timeout=40, split=True, split_workers=8, expect_canary=False, solvers=['cvc5', 'z3'])
             frame_fail = [x for x in r2.failed if re.search(r'\.assigns\.|loop_assigns|\.frees\.', x)]
             if frame_fail:
-                payload = {'function': f.cname, 'class': u.cls, 'source': u.src, 'method': f.name, 'status': 'refuted (frame)',
+                payload = {'function': f.cname, 'class': u.cls, 'source': u.src, 'method': f.name, 'status': 'refuted (frame)', 'source_sha256': f.sha,
                            'failed_obligations': frame_fail, 'detail': 'the function writes state outside its contract frame (assigns clause)',
                            'verifier_output': (r2.log or r.log)[-6000:], 'checker_cmd': r2.cmd}
                 if not rep.violation(key, payload, no_input=True):
@@ -350,7 +350,7 @@ def run_numeric(prop, units, tier, seed, trusted_extra=(), design_ref='', lemmas
         # not discharged: search for a concrete input, then replay on the real class
         found = native_search(u, u.under + getattr(u, 'bounded_fns', []), f, seed, N)
         rcls, rmeth, rextra = replay_target(u, f)
-        payload = {'function': f.cname, 'class': rcls, 'source': u.src, 'header': u.header, 'method': rmeth, 'status': r.status,
+        payload = {'function': f.cname, 'class': rcls, 'source': u.src, 'header': u.header, 'method': rmeth, 'status': r.status, 'source_sha256': f.sha,
                    'failed_obligations': r.failed, 'detail': r.detail, 'verifier_output': r.log[-8000:], 'checker_cmd': r.cmd,
                    'native_search': found}
         if rextra:
